@@ -106,6 +106,39 @@ def duality_real(g):
     return bad
 
 
+def trivial_real(g):
+    """gr1.trivial_winning_set against its reading in explicit sets: the
+    Streett(1) region of g (in g's own mode) minus the Rabin(1) region, in
+    the default Rabin mode of temporal.default_rabin_automaton (Moore,
+    strict), of the opponent who plays g's environment with recurrence goals
+    ~P_k and the trivial persistence set.  Returns a description of the first
+    difference or None."""
+    import omega.games.gr1 as gr1
+    ar = g['ar']
+    d = dual_game(g)
+    dar = d['ar']
+    d['P'] = [[True] * dar.ns]
+    exd = gr1games.Explicit(d)
+    w = exd.table(exd.rabin(True, True))
+    ex = gr1games.Explicit(g)
+    for moore, plus_one in MODES:
+        aut = gr1games.load(g)
+        aut.moore, aut.plus_one = moore, plus_one
+        try:
+            triv, _ = gr1.trivial_winning_set(aut)
+        except Exception as e:
+            return dict(mode=(moore, plus_one), raised=repr(e))
+        got = ar.table1(triv)
+        z = ex.table(ex.streett(moore, plus_one))
+        for (c, x, y) in ar.states():
+            exp = z[ar.sidx(c, x, y)] and not w[dar.sidx(c, y, x)]
+            if got[ar.sidx(c, x, y)] != exp:
+                return dict(mode=(moore, plus_one),
+                            state=ar.state_dict(c, x, y), expected=exp,
+                            got=got[ar.sidx(c, x, y)])
+    return None
+
+
 def run_reused(g, moore, plus_one):
     """Rabin solve on an automaton already used with the players in the other
     roles; region indexed as in the role-swapped arena."""
@@ -181,6 +214,14 @@ def oracle_check(g, impl):
                 dict(gr1games.case_of(g), moore=moore, plus_one=plus_one,
                      scenario='reused-after-role-swap'),
                 expected=exp, got=ztab)
+    t = trivial_real(g)
+    if t:
+        return Failing(
+            'trivial_winning_set differs from (Streett(1) region) minus '
+            '(Rabin(1) region of the environment for its own liveness '
+            f'assumptions): {t}', dict(gr1games.case_of(g),
+                                       scenario='trivial_winning_set'),
+            expected=t.get('expected'), got=t)
     bad = duality_real(g)
     if bad:
         return Failing(
@@ -210,6 +251,14 @@ def correspond(ctx):
             return [Mismatch('solver raised', gr1games.case_of(g),
                              impl=repr(e), property_fails=True)]
         dual_checked += 4
+        t = trivial_real(g)
+        if t:
+            mism.append(Mismatch(
+                'gr1.trivial_winning_set differs from (Streett(1) region) '
+                'minus (Rabin(1) region of the environment for its own '
+                f'liveness assumptions): {t}',
+                dict(gr1games.case_of(g), scenario='trivial_winning_set'),
+                impl=t, property_fails=True))
         if bad:
             mism.append(Mismatch(
                 'real Streett(1) region and real Rabin(1) region of the dual '
